@@ -5,52 +5,58 @@ From Oak Require Import Spec.LegacySpec Spec.LegacySpec2 Proofs.LegacyProofs Pro
 From Coq Require Import List String Ascii ZArith Bool Arith Lia.
 Import ListNotations.
 
-(* nodes popped by the loop over the children of a lie strictly below a *)
-Lemma dlink_below s ks D C a :
-  Rank s -> dlink s ks ks D C -> (forall k, In k ks -> k < a) -> forall d, In d D -> d < a.
-Proof.
-  intros HK [LA _] Hks.
-  assert (Hmax : forall d, In d D -> d <= list_max D).
-  { intros d Hd. assert (Hf := proj1 (list_max_le D (list_max D)) (le_n _)).
-    rewrite Forall_forall in Hf. apply Hf; exact Hd. }
-  assert (Hall : forall n d, list_max D - d <= n -> In d D -> d < a).
-  { induction n; intros d Hle Hd.
-    - destruct (LA d Hd) as [Hin|[d' [Hd' Hk]]]; [apply Hks; exact Hin|].
-      apply HK in Hk. assert (Hm := Hmax d' Hd'). lia.
-    - destruct (LA d Hd) as [Hin|[d' [Hd' Hk]]]; [apply Hks; exact Hin|].
-      apply HK in Hk. assert (Hm := Hmax d' Hd'). assert (d' < a) by (apply IHn; [lia | exact Hd']). lia. }
-  intros d Hd. apply (Hall (list_max D) d); [lia | exact Hd].
-Qed.
-
 Lemma detach_loop_total rec os fuel :
-  (forall s k, Rank s -> k < fuel -> exists s1 b, rec s k = Ok s1 b /\ pframe s s1) ->
-  forall ks s, Rank s -> (forall k, In k ks -> k < fuel) -> exists s1 u, detach_loop rec os s ks = Ok s1 u.
+  (forall s k, Rank s -> depth_le s fuel k -> exists s1 b, rec s k = Ok s1 b /\ pframe s s1) ->
+  forall ks s, Rank s -> (forall k, In k ks -> depth_le s fuel k) -> exists s1 u, detach_loop rec os s ks = Ok s1 u.
 Proof.
   intros Hrec. induction ks as [|k ks IH]; intros s HK Hks; simpl; [eauto|].
-  assert (HK1 : Rank (clear_parent s k)) by (eapply Rank_pf; [apply pframe_clear_parent | exact HK]).
-  destruct os; [apply IH; [exact HK1 | intros x Hx; apply Hks; right; exact Hx]|].
-  destruct (Hrec (clear_parent s k) k HK1) as [s1 [b [E PF]]]; [apply Hks; left; reflexivity|].
-  rewrite E. apply IH; [eapply Rank_pf; eassumption | intros x Hx; apply Hks; right; exact Hx].
+  assert (PF0 := pframe_clear_parent s k).
+  assert (HK1 : Rank (clear_parent s k)) by (eapply Rank_pf; [exact PF0 | exact HK]).
+  assert (Hks1 : forall x, In x (k :: ks) -> depth_le (clear_parent s k) fuel x).
+  { intros x Hx. eapply depth_le_same_kids; [intros b; apply (pf_skids _ _ PF0) | apply Hks; exact Hx]. }
+  destruct os; [apply IH; [exact HK1 | intros x Hx; apply Hks1; right; exact Hx]|].
+  destruct (Hrec (clear_parent s k) k HK1) as [s1 [b [E PF]]]; [apply Hks1; left; reflexivity|].
+  rewrite E. apply IH; [eapply Rank_pf; eassumption|].
+  intros x Hx. eapply depth_le_same_kids; [intros b'; apply (pf_skids _ _ PF) | apply Hks1; right; exact Hx].
 Qed.
 
-Lemma detach_total : forall fuel os s a, Rank s -> a < fuel -> exists s1 b, detach fuel os s a = Ok s1 b /\ pframe s s1.
+(* fuel above the depth of the receiver is enough *)
+Lemma detach_total : forall fuel os s a, Rank s -> depth_le s fuel a -> exists s1 b, detach (S fuel) os s a = Ok s1 b /\ pframe s s1.
 Proof.
-  induction fuel; intros os s a HK Hlt; [lia|]. simpl.
-  destruct (detached s a) eqn:Hd; [exists s, true; split; [reflexivity | apply pframe_refl]|].
-  destruct (is_attached_root s a) eqn:Hroot; simpl; [|exists s, false; split; [reflexivity | apply pframe_refl]].
-  assert (Hks : forall k, In k (skids s a) -> k < fuel) by (intros k Hk; apply HK in Hk; lia).
-  destruct (detach_loop_total (detach fuel false) os fuel (fun s k => IHfuel false s k) (skids s a) s HK Hks)
-    as [s1 [u El]].
-  rewrite El.
-  destruct (detach_loop_spec _ os (fun s k s1 r => detach_spec fuel false s k s1 r) _ _ _ _ El) as [D [C [R [L K]]]].
-  assert (PF := dr_pf _ _ _ _ R).
-  assert (Ha : reg_get s (id_of s a) = Some a) by (apply attached_reg; exact Hd).
-  assert (Hg : reg_get s1 (id_of s1 a) = Some a).
-  { rewrite (pf_id _ _ PF), (dr_reg _ _ _ _ R); [exact Ha|].
-    intros d Hdd Ei. assert (Hda := dr_att _ _ _ _ R d Hdd). apply attached_reg in Hda. rewrite Ei, Ha in Hda.
-    inversion Hda; subst d.
-    assert (Hlt' := dlink_below s (skids s a) D C a HK L (fun k Hk => HK _ _ Hk) a Hdd). lia. }
-  rewrite Hg. do 2 eexists. split; [reflexivity|]. eapply pframe_trans; [exact PF | apply pframe_reg_pop].
+  induction fuel; intros os s a HK Hdp.
+  - (* no children *)
+    simpl. destruct (detached s a) eqn:Hd; [exists s, true; split; [reflexivity | apply pframe_refl]|].
+    destruct (is_attached_root s a) eqn:Hroot; simpl; [|exists s, false; split; [reflexivity | apply pframe_refl]].
+    simpl in Hdp. destruct (skids s a) as [|k ks] eqn:Ek; [|exfalso; apply (Hdp k); left; reflexivity].
+    simpl. assert (Ha : reg_get s (id_of s a) = Some a) by (apply attached_reg; exact Hd).
+    rewrite Ha. do 2 eexists. split; [reflexivity | apply pframe_reg_pop].
+  - change (detach (S (S fuel)) os s a) with
+      (if detached s a then Ok s true
+       else if negb (is_attached_root s a) then Ok s false
+       else match detach_loop (detach (S fuel) false) os s (skids s a) with
+            | Ok s1 _ => match reg_get s1 (id_of s1 a) with
+                         | Some _ => Ok (reg_pop s1 (id_of s1 a)) true
+                         | None => Er s1 ECrash
+                         end
+            | Er s1 e => Er s1 e
+            | Div => Div
+            end).
+    destruct (detached s a) eqn:Hd; [exists s, true; split; [reflexivity | apply pframe_refl]|].
+    destruct (is_attached_root s a) eqn:Hroot; simpl negb; cbv iota; [|exists s, false; split; [reflexivity | apply pframe_refl]].
+    assert (Hks : forall k, In k (skids s a) -> depth_le s fuel k) by (intros k Hk; apply Hdp; exact Hk).
+    destruct (detach_loop_total (detach (S fuel) false) os fuel (fun s k => IHfuel false s k) (skids s a) s HK Hks)
+      as [s1 [u El]].
+    rewrite El.
+    destruct (detach_loop_spec _ os (fun s k s1 r => detach_spec (S fuel) false s k s1 r) _ _ _ _ El) as [D [C [R [L K]]]].
+    assert (PF := dr_pf _ _ _ _ R).
+    assert (Ha : reg_get s (id_of s a) = Some a) by (apply attached_reg; exact Hd).
+    assert (Hg : reg_get s1 (id_of s1 a) = Some a).
+    { rewrite (pf_id _ _ PF), (dr_reg _ _ _ _ R); [exact Ha|].
+      intros d Hdd Ei. assert (Hda := dr_att _ _ _ _ R d Hdd). apply attached_reg in Hda. rewrite Ei, Ha in Hda.
+      inversion Hda; subst d.
+      apply (dlink_not_above s (skids s a) D a HK (proj1 L)); [|exact Hdd].
+      intros r Hr. apply (proj2 HK a r Hr). }
+    rewrite Hg. do 2 eexists. split; [reflexivity|]. eapply pframe_trans; [exact PF | apply pframe_reg_pop].
 Qed.
 
 Section DetachTotal.
@@ -64,12 +70,12 @@ Section DetachTotal.
     Inv2 H ct s' /\ exists b, ob = RBool b.
   Proof.
     intros HI Hl E. assert (HK : Rank s) by (destruct HI as [_ [A _]]; exact A).
-    assert (Hf : a < fuel_of s) by (unfold fuel_of, live in *; lia).
+    assert (Hf : depth_le s (List.length (heap s)) a) by (apply rank_depth; exact HK).
     simpl in E. destruct E as [E|E].
-    - destruct (detach_total (fuel_of s) false s a HK Hf) as [s1 [b [Ed _]]]. unfold op_detach in E.
+    - destruct (detach_total (List.length (heap s)) false s a HK Hf) as [s1 [b [Ed _]]]. unfold op_detach, fuel_of in E.
       rewrite Ed in E. simpl in E. inversion E; subst. split; [|eauto].
       eapply inv2_step_detach; unfold op_detach; eassumption.
-    - destruct (detach_total (fuel_of s) true s a HK Hf) as [s1 [b [Ed _]]]. unfold op_detach in E.
+    - destruct (detach_total (List.length (heap s)) true s a HK Hf) as [s1 [b [Ed _]]]. unfold op_detach, fuel_of in E.
       rewrite Ed in E. simpl in E. inversion E; subst. split; [|eauto].
       eapply inv2_step_detach; unfold op_detach; eassumption.
   Qed.
